@@ -200,6 +200,7 @@ struct CppFront : public Front {
         if (c.extra) { m(sc, c.scope).actualCall("not_expected_fn"); o.callsMade++; o.log.push_back("extra ignored"); return; }
         const Fn& F = FNS[c.fn];
         MockActualCall& x = m(sc, c.scope).actualCall(F.name);
+        (void)((sc.useScope || c.scope) ? mock() : mock("scope1")).hasReturnValue(); (void)m(sc, c.scope);      // the other mock support is looked at while this call is still being made, then the call goes on
         if (c.obj && c.dev != "noobject") x.onObject(objectPtr(c.dev == "object" ? otherObject(c.obj) : c.obj));
         for (int k = 0; k < F.np; k++) {
             if (c.dev == sfmt("omit:%d", k)) continue;
@@ -362,12 +363,13 @@ struct CFront : public Front {
         if (c.extra) { m(sc, c.scope)->actualCall("not_expected_fn"); o.callsMade++; o.log.push_back("extra ignored"); return; }
         const Fn& F = FNS[c.fn];
         MockActualCall_c* x = m(sc, c.scope)->actualCall(F.name);
+        (void)((sc.useScope || c.scope) ? mock_c() : mock_scope_c("scope1"))->hasReturnValue(); (void)m(sc, c.scope);
         for (int k = 0; k < F.np; k++) {
             if (c.dev == sfmt("omit:%d", k)) continue;
             if (c.shortForm && F.np > 1 && k == F.np - 1) continue;
             int v = c.vals[(size_t)k] & 7; const char* pn = paramNameFor(F, k, c.dev);
             switch (F.p[k].ty) {
-            case T_BOOL: x->withBoolParameters(pn, (v & 1)); break;
+            case T_BOOL: x->withBoolParameters(pn, (v & 1) ? 4 : 0); break;      // in C every non-zero int is true
             case T_INT: if (retypeMode(k, c.dev)) x->withLongIntParameters(pn, retyped(intPool[v], retypeMode(k, c.dev))); else x->withIntParameters(pn, (int)intPool[v]); break;
             case T_UINT: if (retypeMode(k, c.dev)) x->withLongIntParameters(pn, retyped((long long)uintPool[v], retypeMode(k, c.dev))); else x->withUnsignedIntParameters(pn, (unsigned)uintPool[v]); break;
             case T_LONG: x->withLongIntParameters(pn, (long)longPool[v]); break;
